@@ -18,7 +18,7 @@ from .. import oracles
 
 PROP = "C03"
 NAME = "c03_driver"
-RUNS = {"quick": 3500, "thorough": 150000}
+RUNS = {"quick": 3500, "thorough": 60000}
 TIMEOUT = 300
 CPU_LIMIT = 4
 CHUNK = 50
